@@ -84,6 +84,7 @@ def run_cases(program, cases, record, prop, name, batch=False, pairs_from=None):
     path = os.path.join(REPLAY_DIR, prop, name + ".json")
     rec = dict(record)
     rec.update({"engine": "prolog", "property": prop, "program": program, "cases": cases,
+                "batch": batch, "pairs_from": pairs_from,
                 "path": path, "reproduced": False, "when": time.strftime("%Y-%m-%dT%H:%M:%S")})
     exe = build_binary()
     if not exe:
@@ -95,7 +96,9 @@ def run_cases(program, cases, record, prop, name, batch=False, pairs_from=None):
             for k, ((goal, want), got) in enumerate(zip(cases, outs)):
                 if want is None:
                     # differential pair (from index pairs_from on): odd member must equal the even one
-                    if pairs_from is not None and (k - pairs_from) % 2 == 1 and got != outs[k - 1]:
+                    if got.startswith("exception(") or got.startswith("<no output") or got == "failed":
+                        mism.append({"goal": goal, "want": "an outcome term", "got": got})
+                    elif pairs_from is not None and (k - pairs_from) % 2 == 1 and got != outs[k - 1]:
                         mism.append({"goal": goal, "want": outs[k - 1], "got": got,
                                      "reference_goal": cases[k - 1][0]})
                 elif got != want:
@@ -119,7 +122,8 @@ def run_cases(program, cases, record, prop, name, batch=False, pairs_from=None):
 def replay(rec):
     """./check <ID> --replay <file> for engine == prolog"""
     r = run_cases(rec["program"], [tuple(c) for c in rec["cases"]], {}, rec["property"],
-                  os.path.basename(rec["path"]).replace(".json", "") + ".rerun")
+                  os.path.basename(rec["path"]).replace(".json", "") + ".rerun",
+                  batch=rec.get("batch", False), pairs_from=rec.get("pairs_from"))
     log(json.dumps(r.get("mismatches", r.get("why")), indent=1))
     return 1 if r["reproduced"] else 0
 
@@ -369,7 +373,9 @@ show(X) :- write(X), nl.
 lit2(2). lit7(7). litb(36028797018963968). litr(R) :- R is 1 rdiv 3.
 yn(G) :- ( catch(G, _, fail) -> show(yes) ; show(no) ).
 r(G, T, R) :- catch(( G -> R = yes(T) ; R = no ), error(E, _), R = err(E)).
-showv(R) :- copy_term(R, C), numbervars(C, 0, _), write_term(C, [numbervars(true), quoted(true)]), nl.
+showv(R) :- copy_term(R, C), term_variables(C, Vs), nv(Vs, 0), write_term(C, [numbervars(true), quoted(true)]), nl.
+nv([], _).
+nv(['$VAR'(N)|Vs], N) :- N1 is N + 1, nv(Vs, N1).
 """
 
 
